@@ -146,7 +146,7 @@ func hasNonSemicolonToken(toks []token.Token) bool {
 func c07Inputs(c *runCtx, n int) []string {
 	inputs := append([]string{}, builtinCorpus...)
 	inputs = append(inputs, lexicalGarbage...)
-	inputs = append(inputs, ";; SELECT 1", "SELECT 1;;", "; SELECT 1 ; ; SELECT 2 ;", "SELECT 1 SELECT 2", "SELECT a FROM t; garbage here; SELECT b FROM u",
+	inputs = append(inputs, "SELECT a FROM t LIMIT 5, 10", "SELECT a FROM t LIMIT 10 OFFSET 5;", "SELECT `a` FROM `t`", ";; SELECT 1", "SELECT 1;;", "; SELECT 1 ; ; SELECT 2 ;", "SELECT 1 SELECT 2", "SELECT a FROM t; garbage here; SELECT b FROM u",
 		"SELECT a FROM t WHERE; SELECT 1", "SHOW TABLES; DESCRIBE t; EXPLAIN SELECT 1; REPLACE INTO t (a) VALUES (1)", "SELECT 1; SELECT FROM; SELECT 'unterminated")
 	g := newSQLGen(c.rng.Fork())
 	for i := 0; i < n; i++ {
@@ -264,7 +264,10 @@ func runC07(c *runCtx) {
 			res.stat("rejected:" + ref[4:])
 		}
 		batchAll = append(batchAll, in)
-		for _, e := range eps[1:] {
+		for k, e := range eps[1:] {
+			if ii%2 == 1 {
+				pollutePools(ii + k) // earlier holders of the pooled objects must not change what an entry point answers
+			}
 			got := e.f(in)
 			if got == "err:lex" && strings.HasPrefix(ref, "err:E1") {
 				continue
@@ -274,7 +277,10 @@ func runC07(c *runCtx) {
 					map[string]any{"input": in, "a": "gosqlx.Parse", "b": e.name}, map[string]any{"a": truncate(ref, 300), "b": truncate(got, 300)})
 			}
 		}
-		for _, e := range acceptOnly {
+		for k, e := range acceptOnly {
+			if ii%2 == 1 {
+				pollutePools(ii + k + 3)
+			}
 			got := e.f(in)
 			wantOK := strings.HasPrefix(ref, "ok:")
 			gotOK := got == "ok"
